@@ -74,6 +74,14 @@ impl Tracer {
             c = g;
         }
     }
+    /// let the parked thread run on to a later acquisition of its own
+    pub fn rearm(&self, tid: usize, nth: usize) {
+        let mut c = self.ctl.lock().unwrap();
+        c.pause = Some((tid, nth));
+        c.paused = false;
+        c.resume = true;
+        self.cv.notify_all();
+    }
     pub fn resume(&self) {
         let mut c = self.ctl.lock().unwrap();
         c.resume = true;
@@ -106,6 +114,7 @@ impl LockObserver for Tracer {
         c.events.push(Ev { tid, lock, write: mode == Mode::Write, kind: 0 });
         if c.pause == Some((tid, n)) {
             c.paused = true;
+            c.resume = false;
             self.cv.notify_all();
             while !c.resume {
                 c = self.cv.wait(c).unwrap();
@@ -261,7 +270,9 @@ pub fn sched(input: &str, out: &mut impl std::io::Write) {
     set_observer(Some(tr.clone()));
     let mut a_op: Vec<String> = vec![];
     let mut b_op: Vec<String> = vec![];
+    let mut c_op: Vec<String> = vec![];
     let mut pause = 0usize;
+    let mut pause2 = 0usize;
     let mut probes: Vec<Vec<String>> = vec![];
     let mut used: Vec<usize> = vec![];
     let note_used = |t: &[&str], used: &mut Vec<usize>| {
@@ -286,8 +297,10 @@ pub fn sched(input: &str, out: &mut impl std::io::Write) {
                 writeln!(out, "P {} => {}", t[1..].join(" "), r).unwrap();
             }
             "A" => { a_op = t[1..].iter().map(|s| s.to_string()).collect(); note_used(&t[1..], &mut used); writeln!(out, "AOP {}", t[1..].join(" ")).unwrap(); }
-            "B" => { b_op = t[1..].iter().map(|s| s.to_string()).collect(); note_used(&t[1..], &mut used); }
+            "B" => { b_op = t[1..].iter().map(|s| s.to_string()).collect(); note_used(&t[1..], &mut used); writeln!(out, "BOP {}", t[1..].join(" ")).unwrap(); }
+            "C" => { c_op = t[1..].iter().map(|s| s.to_string()).collect(); note_used(&t[1..], &mut used); writeln!(out, "COP {}", t[1..].join(" ")).unwrap(); }
             "PAUSE" => pause = t[1].parse().unwrap(),
+            "PAUSE2" => pause2 = t[1].parse().unwrap(),
             "Q" => { probes.push(t[1..].iter().map(|s| s.to_string()).collect()); note_used(&t[1..], &mut used); }
             "END" => {}
             _ => panic!("sched line {}", line),
@@ -353,20 +366,56 @@ pub fn sched(input: &str, out: &mut impl std::io::Write) {
         }
         set_tid(me);
     }
+    // second preemption: A runs on to a later acquisition of its own, then a third thread C runs
+    let done_c = Arc::new(Mutex::new(None::<String>));
+    let mut hc = None;
+    let mut reached2 = false;
+    let mut c_blocked = false;
+    if !c_op.is_empty() {
+        if reached && pause2 > pause {
+            tr.rearm(1, pause2);
+            let da3 = done_a.clone();
+            reached2 = tr.wait_paused(&move || da3.lock().unwrap().is_some(), Instant::now() + Duration::from_millis(1500));
+        }
+        let (dc, co) = (done_c.clone(), c_op.clone());
+        hc = Some(std::thread::spawn(move || {
+            set_tid(3);
+            let toks: Vec<&str> = co.iter().map(|s| s.as_str()).collect();
+            let r = run_op(&toks);
+            *dc.lock().unwrap() = Some(r);
+        }));
+        let t0 = Instant::now();
+        loop {
+            if done_c.lock().unwrap().is_some() {
+                break;
+            }
+            if tr.waiting_on(3).is_some() && t0.elapsed() > Duration::from_millis(40) {
+                c_blocked = true;
+                break;
+            }
+            if t0.elapsed() > Duration::from_millis(400) {
+                c_blocked = true;
+                break;
+            }
+            std::thread::sleep(Duration::from_millis(1));
+        }
+    } else {
+        *done_c.lock().unwrap() = Some(String::new());
+    }
     tr.resume();
     // both must finish
     let mut dl = Instant::now() + Duration::from_millis(1200);
     let hard = Instant::now() + Duration::from_secs(15);
     loop {
         let fa = done_a.lock().unwrap().is_some();
-        let fb = done_b.lock().unwrap().is_some();
+        let fb = done_b.lock().unwrap().is_some() && done_c.lock().unwrap().is_some();
         if fa && fb {
             break;
         }
         if Instant::now() > dl {
             // a deadlock means: every unfinished thread is waiting for a lock. A thread that is
             // merely slow (loaded machine) is not waiting; give it more time.
-            let stuck = (fa || tr.waiting_on(1).is_some()) && (fb || tr.waiting_on(2).is_some());
+            let stuck = (fa || tr.waiting_on(1).is_some()) && (fb || tr.waiting_on(2).is_some() || tr.waiting_on(3).is_some());
             if !stuck && Instant::now() < hard {
                 dl = Instant::now() + Duration::from_millis(500);
                 continue;
@@ -392,12 +441,18 @@ pub fn sched(input: &str, out: &mut impl std::io::Write) {
     }
     ha.join().ok();
     hb.join().ok();
+    if let Some(h) = hc {
+        h.join().ok();
+    }
     set_tid(usize::MAX);
     let r = roles();
     writeln!(out, "SCHED reached={} b_blocked={} deadlock=0 acqA={} heldAtPause=[{}]", reached as u8, b_blocked as u8, tr.acquisitions(1),
              held_at_pause.iter().map(|l| r.get(l).cloned().unwrap_or_else(|| "?".into())).collect::<Vec<_>>().join(",")).unwrap();
     writeln!(out, "RA {}", done_a.lock().unwrap().clone().unwrap()).unwrap();
     writeln!(out, "RB {}", done_b.lock().unwrap().clone().unwrap()).unwrap();
+    if !c_op.is_empty() {
+        writeln!(out, "RC reached2={} c_blocked={} {}", reached2 as u8, c_blocked as u8, done_c.lock().unwrap().clone().unwrap()).unwrap();
+    }
     for l in &mid {
         writeln!(out, "{}", l).unwrap();
     }
